@@ -246,3 +246,30 @@ _ROUND2 = {
 for _k, _v in _ROUND2.items():
     if _k in TEXTS and _v.strip() not in TEXTS[_k]["text"]:
         TEXTS[_k]["text"] = TEXTS[_k]["text"].rstrip() + _v
+
+# ---- clauses added with the third seeding round and findings F28-F29 -----------------------------------------
+_ROUND3 = {
+ "C01": " Round 3: field-by-field struct copies name every field (COPY-COMPLETE, reviewed resets listed); per-module maps are keyed by the full module name; every compiler warning reaches the syntax/unused-import recorders; recursive import walks follow every listed dependency.",
+ "C02": " Round 3: functions named …Sorted… sort before every slice return; a slice collected in bucket walk order is sorted before it is iterated.",
+ "C03": " Round 3: the enum-subset helper compares numbers pairwise under the same name; a fresh per-package inner map is installed only on the absent edge of a lookup of the same key; the map-entry skip guard is the same expression in all sibling cardinality handlers.",
+ "C04": " Round 3: SUBSET-BY-PAIR, INDEX-ACCUMULATES and SIBLING-SKIP-GUARDS as for C03.",
+ "C05": " Round 3: resolved GroupKind is never singled out without MessageKind or a syntax test; a version containing \"test\" is classified test-level on guards of that literal alone; an element taken from a map is re-filed under its own key or full name.",
+ "C06": " Round 3: no answer other than `ignore` is returned before every suppressor (config-guarded `return true`) had one of its fields consulted; every transition of the source-path automaton into the options state associates the whole path.",
+ "C07": " Round 3: a formatter mode flag raised in a method is lowered on every exit; a message/array literal value answers the multi-line predicate unconditionally; files opened for overwriting carry O_TRUNC/O_APPEND/O_EXCL.",
+ "C08": " Round 3: every walked object becomes one node named by Path() with the digest of its own content; content hashing consumes bytes returned together with io.EOF; in-place sorts never reorder a slice owned by another object; a digest's cached string is rendered from its bytes.",
+ "C09": " Round 3: no `return nil, err` with err known nil (R-STALE-ERR; found and fixed F28); the digest a cached commit is checked against comes from the request; the validity of a marker read is decided from that read alone.",
+ "C10": " Round 3: a struct value is stored into a map only after it is complete; every import of every file is resolved on every visit of the dependency walk.",
+ "C11": " Round 3: an image derived by dropping files keeps the resolver of its source image.",
+ "C12": " Round 3: conditions singling out type-referencing fields name ENUM, MESSAGE and GROUP; a descriptor list is not read again after it was handed to the in-place rewriter; Any type URLs are cut at the last slash; a type that was never walked is not kept (KEPT-IMPLIES-WALKED; reports the known finding F29).",
+ "C13": " Round 3: Matcher methods are sinks for unsanitised paths; keys of a bucket built from a path map are sanitizer results on every path.",
+ "C14": " Round 3: R-MUSTVALIDATE (shared with C13) for 'equivalent spellings denote the same object'; a writer's Close publishes at most once.",
+ "C15": " Round 3: R-STALE-ERR and R-ERRLOOP module-wide (self-tested positive examples); os.Remove in the atomic writer takes the temporary file's name and os.Rename goes from it; OPEN-TRUNCATES.",
+ "C16": " Round 3: value->name and name->value tables are inverse bijections; accessor results passed to constructors land in the parameter of their name; the distinct-section sets used for hoisting receive every module's section.",
+ "C17": " Round 3: the staging-bucket cache is keyed by the output location parameter itself; recursive import walks follow every dependency; PROTOFILE-TOTAL.",
+ "C18": " Round 3: walk callbacks write no captured variable; parts of a composed override that are not replaced are carried over from the accumulator; sweep keys keep every byte of every path element.",
+ "C19": " Round 3: RemoteToken writes no field of its provider.",
+ "C20": " Round 3: an exit-code carrier stays on the error chain (%w) until returned; annotation groups are formed in order of first appearance without re-sorting.",
+}
+for _k, _v in _ROUND3.items():
+    if _k in TEXTS and _v.strip() not in TEXTS[_k]["text"]:
+        TEXTS[_k]["text"] = TEXTS[_k]["text"].rstrip() + _v
